@@ -147,15 +147,20 @@ func ZZ_C04_RequestPeerEncodings() {
 // (or whose address is empty) is rejected before the declared amount is read
 // or allocated.
 //
-//verif:harness kind=api unwind=300 bound=declared∈{0,2049,4097,65536,2^32,2^62-1},widths
+//verif:harness kind=api unwind=300 bound=declared∈{0,2049,4097,65536,2^32,2^62-1}+any-value-in-[4097,2^62)(symbolic,8-byte-form),widths
 func ZZ_C04_OverLimitRejected() {
 	which := verifChoice("field", 3) // 0 address, 1 request padding, 2 response message
-	bad := []uint64{2049, 4097, 65536, 1 << 32, 1<<62 - 1}[verifChoice("declared", 5)]
+	k := verifChoice("declared", 6)
+	bad := []uint64{2049, 4097, 65536, 1 << 32, 1<<62 - 1, 0}[k]
 	if which == 1 && bad == 2049 {
 		bad = 4097
 	}
 	w := 8
-	if bad < 1<<14 && verifBool("w2") {
+	if k == 5 {
+		// ANY declared length above every limit, as an 8-byte varint (symbolic)
+		bad = verifUint64("declared8", 4097, 1<<62-1)
+		verifCover("any-over-limit-length")
+	} else if bad < 1<<14 && verifBool("w2") {
 		w = 2
 	} else if bad < 1<<30 && verifBool("w4") {
 		w = 4
